@@ -35,21 +35,30 @@ SHARD_TIMEOUT = {"quick": 300, "thorough": 1500}
 
 def all_cases(tier: str, seed: int):  # noqa: ANN201
     yield from treecheck.cases("c02", tier, seed, 4000, 60000, extra=lambda: itertools.chain(treefam.failure_then_shield(), treefam.shielded_group_failure(),
-                                                                  treefam.start_sweep_uncancelled_caller()))
+                                                                  treefam.start_sweep_uncancelled_caller(),
+                                                                  treefam.failed_body_late_spawn()))
 
 
 def shards(tier: str, seed: int) -> list[dict]:
     return treecheck.shards(tier, seed)
 
 
+def judge(case: dict, col) -> None:  # noqa: ANN001
+    # "the remaining tasks are cancelled": in the family where the only task that can be
+    # left when the body fails is the late member, its not being interrupted (a C03 clause)
+    # is a C02 violation as well
+    also = ("C03",) if case.get("profile") == "fam:failed_body_late_spawn" else ()
+    treecheck.judge(PROPERTY, case, col, also=also)
+
+
 def run_shard(desc: dict, col) -> None:  # noqa: ANN001
     for i, case in enumerate(all_cases(desc["tier"], desc["seed"])):
         if i % desc["of"] == desc["shard"]:
-            treecheck.judge(PROPERTY, case, col)
+            judge(case, col)
 
 
 def replay(case: dict, col) -> None:  # noqa: ANN001
-    treecheck.judge(PROPERTY, case, col)
+    judge(case, col)
 
 
 def finish(col, tier: str) -> None:  # noqa: ANN001
